@@ -145,7 +145,16 @@ func (verify *VerifyServerController) handlePairVerifyStart(in util.Container) (
 func (verify *VerifyServerController) handlePairVerifyFinish(in util.Container) (util.Container, error) {
 	verify.step = VerifyStepFinishResponse
 
+	out := util.NewTLV8Container()
+	out.SetByte(TagSequence, verify.step.Byte())
+
 	data := in.GetBytes(TagEncryptedData)
+	if len(data) < 16 {
+		// The encrypted data must at least contain the auth tag
+		verify.reset()
+		out.SetByte(TagErrCode, ErrCodeAuthenticationFailed.Byte()) // return error 2
+		return out, nil
+	}
 	message := data[:(len(data) - 16)]
 	var mac [16]byte
 	copy(mac[:], data[len(message):]) // 16 byte (MAC)
@@ -154,12 +163,9 @@ func (verify *VerifyServerController) handlePairVerifyFinish(in util.Container) 
 
 	decryptedBytes, err := chacha20poly1305.DecryptAndVerify(verify.session.EncryptionKey[:], []byte("PV-Msg03"), message, mac, nil)
 
-	out := util.NewTLV8Container()
-	out.SetByte(TagSequence, verify.step.Byte())
-
 	if err != nil {
 		verify.reset()
-		log.Info.Panic(err)
+		log.Info.Println(err)
 		out.SetByte(TagErrCode, ErrCodeAuthenticationFailed.Byte()) // return error 2
 	} else {
 		in, err := util.NewTLV8ContainerFromReader(bytes.NewBuffer(decryptedBytes))
